@@ -288,6 +288,7 @@ static double sconstraint(unsigned n_, const double *x_, double *grad_, void *da
     const double *x = embed(n_, x_);
     double *grad = (full_n && grad_) ? fullg : grad_;
     ++ncalls; ++nccalls;
+    vclock += clockq;
     if (!d || d->magic != 0xC0FFEEu || d->vec) fprintf(out, "A bad constraint data pointer\n");
     if (n_ != expect_n) fprintf(out, "A constraint n=%u expected %u\n", n_, expect_n);
     v = cval(d->ck, d->b, d->j0, n, x, grad);
@@ -310,6 +311,7 @@ static void mconstraint(unsigned m, double *result, unsigned n_, const double *x
     unsigned n = full_n ? full_n : n_;
     const double *x = embed(n_, x_);
     ++ncalls; ++nccalls;
+    vclock += clockq;
     if (!d || d->magic != 0xC0FFEEu || !d->vec) fprintf(out, "A bad mconstraint data pointer\n");
     if (n_ != expect_n) fprintf(out, "A mconstraint n=%u expected %u\n", n_, expect_n);
     if ((int) m != d->m) fprintf(out, "A mconstraint m=%u expected %d\n", m, d->m);
@@ -396,6 +398,7 @@ static void one_run(const char *line)
     out = stdout;
     fprintf(out, "RUN %s", line);
     if (line[strlen(line) - 1] != '\n') fprintf(out, "\n");
+    fflush(out);                /* so that a later crash is attributed to this run */
     nlopt_verif_hooks.seconds = hook_seconds;
     nlopt_verif_hooks.time_seed = hook_time_seed;
     if (getint(line, "hooks", 1)) {
